@@ -157,6 +157,9 @@ def run(spec):
       'group': [1] * (n + T) + [2] * (n + T),
       'period': ([0] * n + [1] * T) * 2,
       'response': list(x) + list(x_test) + list(y) + list(y_test)})
+  if spec['sa'] % 2:
+    frame = frame.iloc[np.random.RandomState(abs(spec['sb']) + 1).permutation(len(frame))].reset_index(drop=True)
+    cls.append('shuffled-rows')
   try:
     m = tbr.TBR(use_cooldown=False)
     m.fit(frame, 'response')
